@@ -392,50 +392,103 @@ func PrePassShape(p *load.Prog, r *oblig.Report, rule string) *PrePass {
 		return pp
 	}
 	r.OK(rule, "prepass:join", pos(input), "ssa", "NewInputStream(TrimRight(Join(cleanedLines, \"\\n\"), \"\\n\"))")
-	// (3) the list is the header phi of a loop: [fresh list, append(phi, one element)]
-	phi, ok := list.(*ssa.Phi)
-	if !ok || len(phi.Edges) != 2 {
-		r.Unknown(rule, "prepass:line-loop", pos(input), "the joined list is not built in a loop (it is "+c.canon(list, 0)+")")
-		return pp
-	}
-	hdr := phi.Block()
-	var back *ssa.Call
-	for _, e := range phi.Edges {
-		if call, ok := e.(*ssa.Call); ok {
-			if b, isB := call.Common().Value.(*ssa.Builtin); isB && b.Name() == "append" && call.Common().Args[0] == ssa.Value(phi) {
-				back = call
+	// (3) the list is built line by line: either appended to in a loop — the header phi [fresh list, append(phi, one
+	// element)] — or allocated with one slot per line (make([]string, len(lines)), or the split result itself) and
+	// filled in place at the loop index
+	var hdr *ssa.BasicBlock
+	var cleaned ssa.Value
+	var back interface{ Pos() token.Pos }
+	if phi, ok := list.(*ssa.Phi); ok && len(phi.Edges) == 2 {
+		hdr = phi.Block()
+		var app *ssa.Call
+		for _, e := range phi.Edges {
+			if call, ok := e.(*ssa.Call); ok {
+				if b, isB := call.Common().Value.(*ssa.Builtin); isB && b.Name() == "append" && call.Common().Args[0] == ssa.Value(phi) {
+					app = call
+				}
 			}
 		}
-	}
-	exits := !loopLeftOnlyFromHeader(hdr)
-	if back == nil || exits {
-		r.Bad(rule, "prepass:one-line-out-per-line-in", p.Pos(phi.Pos()), fmt.Sprintf("the loop does not append exactly one cleaned line per input line on every path (unconditional append: %v, early exits: %v): line numbers shift", back != nil, exits))
-		return pp
-	}
-	var cleaned ssa.Value
-	if sl, ok := back.Common().Args[1].(*ssa.Slice); ok {
-		if al, ok := sl.X.(*ssa.Alloc); ok && al.Referrers() != nil {
-			n := 0
-			for _, ref := range *al.Referrers() {
-				if ia, ok := ref.(*ssa.IndexAddr); ok && ia.Referrers() != nil {
-					for _, r2 := range *ia.Referrers() {
-						if st, ok := r2.(*ssa.Store); ok {
-							cleaned = st.Val
-							n++
+		exits := !loopLeftOnlyFromHeader(hdr)
+		if app == nil || exits {
+			r.Bad(rule, "prepass:one-line-out-per-line-in", p.Pos(phi.Pos()), fmt.Sprintf("the loop does not append exactly one cleaned line per input line on every path (unconditional append: %v, early exits: %v): line numbers shift", app != nil, exits))
+			return pp
+		}
+		if sl, ok := app.Common().Args[1].(*ssa.Slice); ok {
+			if al, ok := sl.X.(*ssa.Alloc); ok && al.Referrers() != nil {
+				n := 0
+				for _, ref := range *al.Referrers() {
+					if ia, ok := ref.(*ssa.IndexAddr); ok && ia.Referrers() != nil {
+						for _, r2 := range *ia.Referrers() {
+							if st, ok := r2.(*ssa.Store); ok {
+								cleaned = st.Val
+								n++
+							}
+						}
+					}
+				}
+				if n != 1 {
+					cleaned = nil
+				}
+			}
+		}
+		if cleaned == nil {
+			r.Bad(rule, "prepass:one-line-out-per-line-in", pos(app), "the append adds something other than exactly one cleaned line")
+			return pp
+		}
+		back = app
+		r.OK(rule, "prepass:one-line-out-per-line-in", pos(app), "ssa", "the list is extended by exactly one element on every path through the loop body; the loop is left only when the lines are exhausted")
+	} else {
+		// in place: every store into the list happens at the loop index of one complete loop, unconditionally
+		var stores []*ssa.Store
+		for _, f := range c.funcs {
+			for _, b := range f.Blocks {
+				for _, in := range b.Instrs {
+					if st, ok := in.(*ssa.Store); ok {
+						if ia, ok := st.Addr.(*ssa.IndexAddr); ok && c.res(ia.X) == list {
+							stores = append(stores, st)
 						}
 					}
 				}
 			}
-			if n != 1 {
-				cleaned = nil
+		}
+		if len(stores) != 1 {
+			r.Unknown(rule, "prepass:line-loop", pos(input), fmt.Sprintf("the joined list is not built in a loop (it is %s, written at %d places)", c.canon(list, 0), len(stores)))
+			return pp
+		}
+		st := stores[0]
+		idx := st.Addr.(*ssa.IndexAddr).Index
+		if bo, ok := idx.(*ssa.BinOp); ok && bo.Op == token.ADD {
+			idx = bo.X
+		}
+		ph, ok := idx.(*ssa.Phi)
+		if !ok {
+			r.Unknown(rule, "prepass:line-loop", pos(st), "the list is written at an index that is not a loop index")
+			return pp
+		}
+		hdr = ph.Block()
+		// unconditional: the store's block dominates every in-loop predecessor of the header
+		uncond := loopLeftOnlyFromHeader(hdr)
+		for _, pred := range hdr.Preds {
+			if dominatedBy(hdr, pred) && pred != hdr.Preds[0] && !dominatedBy(st.Block(), pred) {
+				uncond = false
 			}
 		}
+		// one slot per line: the list is the split result itself or make([]string, len(lines))
+		sized := stdCall(list, "strings", "Split") != nil
+		if mk, isMk := list.(*ssa.MakeSlice); isMk {
+			if lc, isCall := mk.Len.(*ssa.Call); isCall {
+				if bi, isB := lc.Common().Value.(*ssa.Builtin); isB && bi.Name() == "len" && stdCall(c.res(lc.Common().Args[0]), "strings", "Split") != nil {
+					sized = true
+				}
+			}
+		}
+		if !uncond || !sized {
+			r.Bad(rule, "prepass:one-line-out-per-line-in", pos(st), fmt.Sprintf("the cleaned lines are written in place, but not one per input line on every path (unconditional: %v, one slot per line: %v): line numbers shift", uncond, sized))
+			return pp
+		}
+		cleaned, back = st.Val, st
+		r.OK(rule, "prepass:one-line-out-per-line-in", pos(st), "ssa", "one slot per input line, filled at the loop index on every path; the loop is left only when the lines are exhausted")
 	}
-	if cleaned == nil {
-		r.Bad(rule, "prepass:one-line-out-per-line-in", pos(back), "the append adds something other than exactly one cleaned line")
-		return pp
-	}
-	r.OK(rule, "prepass:one-line-out-per-line-in", pos(back), "ssa", "the list is extended by exactly one element on every path through the loop body; the loop is left only when the lines are exhausted")
 	// (4) the ranged slice and the current line
 	var ranged ssa.Value
 	for _, b := range hdr.Parent().Blocks {
@@ -452,7 +505,10 @@ func PrePassShape(p *load.Prog, r *oblig.Report, rule string) *PrePass {
 				idx = bo.X
 			}
 			if ph, ok := idx.(*ssa.Phi); ok && ph.Block() == hdr {
-				if _, isSlice := ia.X.Type().Underlying().(*types.Slice); isSlice {
+				if _, isSlice := ia.X.Type().Underlying().(*types.Slice); isSlice && (stdCall(c.res(ia.X), "strings", "Split") != nil || ranged == nil) {
+					if _, isStore := firstStoreUser(ia); isStore && stdCall(c.res(ia.X), "strings", "Split") == nil {
+						continue
+					}
 					ranged = ia.X
 					if ia.Referrers() != nil {
 						for _, ref := range *ia.Referrers() {
@@ -466,7 +522,7 @@ func PrePassShape(p *load.Prog, r *oblig.Report, rule string) *PrePass {
 		}
 	}
 	if ranged == nil || len(c.line) == 0 {
-		r.Unknown(rule, "prepass:line-loop", p.Pos(phi.Pos()), "the loop that builds the cleaned lines does not range over a slice of lines")
+		r.Unknown(rule, "prepass:line-loop", p.Pos(back.Pos()), "the loop that builds the cleaned lines does not range over a slice of lines")
 		return pp
 	}
 	split := stdCall(c.res(ranged), "strings", "Split")
@@ -482,7 +538,7 @@ func PrePassShape(p *load.Prog, r *oblig.Report, rule string) *PrePass {
 	if okSplit {
 		r.OK(rule, "prepass:split", pos(split), "ssa", "strings.Split(data, \"\\n\")")
 	} else {
-		r.Bad(rule, "prepass:split", p.Pos(phi.Pos()), "the lines are not strings.Split(<ParseDSL's parameter>, \"\\n\") (they are "+c.canon(ranged, 0)+"): line numbers of the cleaned text would not be those of the input")
+		r.Bad(rule, "prepass:split", p.Pos(back.Pos()), "the lines are not strings.Split(<ParseDSL's parameter>, \"\\n\") (they are "+c.canon(ranged, 0)+"): line numbers of the cleaned text would not be those of the input")
 	}
 	// (2) every alternative of the cleaned line
 	alts := c.alternatives(cleaned, 0)
@@ -600,4 +656,16 @@ func loopLeftOnlyFromHeader(hdr *ssa.BasicBlock) bool {
 		}
 	}
 	return true
+}
+
+func firstStoreUser(ia *ssa.IndexAddr) (*ssa.Store, bool) {
+	if ia.Referrers() == nil {
+		return nil, false
+	}
+	for _, ref := range *ia.Referrers() {
+		if st, ok := ref.(*ssa.Store); ok && st.Addr == ssa.Value(ia) {
+			return st, true
+		}
+	}
+	return nil, false
 }
